@@ -279,12 +279,25 @@ def lifecycle_check(prop, tier):
             # sites are per process: fine (each scenario is its own child)
             scen.append(sc)
             hists.append(hists[i])
+    if prop in ("C17", "C05"):
+        # fault enumeration at the OS boundary of the scope exit: the first munmap fails (the library ignores the
+        # result); validated by the trace specification only
+        for i in range(0, n_plain, 4):
+            if not any(st.get("op") == "install" and st.get("gate") == "ok" and st.get("fault") == "none"
+                       for life in scen[i]["lives"] for st in life["steps"]):
+                continue
+            sc = json.loads(json.dumps(scen[i]))
+            sc["id"] = len(scen) + 1
+            for life in sc["lives"]:
+                life["drop_fault"] = "munmap"
+            scen.append(sc)
+            hists.append(hists[i])
     groups, order, _ = vlib.run_harness("lifecycle", scen, "lifecycle_" + prop)
     # spec -> impl
     nviol = 0
     for i, h in enumerate(hists, 1):
         evs = groups.get(i, [])
-        key = history_key(h) + (" [ambient unwinding]" if i > n_plain else "")
+        key = history_key(h) + ((" [munmap fails at scope exit]" if scen[i - 1]["lives"] and scen[i - 1]["lives"][0].get("drop_fault") else " [ambient unwinding]") if i > n_plain else "")
         if any(x["act"] == "Install" for x in h):
             run.note_case(key)
         else:
@@ -313,11 +326,16 @@ def lifecycle_check(prop, tier):
             reached, total = tv["progress"][sid]
             evs = groups.get(sid, [])
             first_bad = evs[reached] if reached < len(evs) else None
-            key = "%s history=%s%s" % (prop, history_key(hists[sid - 1]), " [ambient unwinding]" if sid > n_plain else "")
+            variant = ""
+            if sid > n_plain:
+                variant = " [munmap fails at scope exit]" if scen[sid - 1]["lives"] and scen[sid - 1]["lives"][0].get("drop_fault") else " [ambient unwinding]"
+            key = "%s history=%s%s" % (prop, history_key(hists[sid - 1]), variant)
             run.violation(key, {"behaviour": hists[sid - 1], "scenario": scen[sid - 1],
                                 "trace_rejected_at": reached, "first_unmatched_event": first_bad,
                                 "events": evs[max(0, reached - 12):reached + 3]})
     run.sample({"trace_event": next((e for e in groups.get(1, []) if e["ev"] == "Write"), None)})
+    if prop in ("C02", "C03", "C12"):
+        placement_part(run, prop, tier)
     return run.finish()
 
 
@@ -378,6 +396,46 @@ def placement_scenarios(tier):
     return scen
 
 
+def prologue_scenarios():
+    """targets with unusual but legitimate first instructions, for the checks that speak about restoring /
+    not touching / releasing (C02, C03, C12) and for C01"""
+    scen = []
+    for pro in ("plain", "endbr64", "nop", "thunk_e9", "thunk_eb"):
+        for off in (64, 4090, 2048):
+            for fl, dl in (("raw", 1), ("bool", -1), ("unchecked", 2), ("func", 1)):
+                sc = dict(flavour=fl, func_page=0x10000000, off=off, tramp_delta_pages=dl, disp=1 << 20, prologue=pro, boolv=1)
+                if fl == "func":
+                    sc.pop("func_page")
+                    sc["disp"] = 1 << 24
+                scen.append(sc)
+    return scen
+
+
+def placement_part(run, prop, tier):
+    """a small placement run (arena targets, prologue family) validated under `prop`"""
+    scen = prologue_scenarios()
+    for k, sc in enumerate(scen, 1):
+        sc["id"] = k
+    groups, order, _ = vlib.run_harness("placement", scen, "placement_part_" + prop, timeout=3000)
+    cfgp = tlc.make_cfg("Trace_Patch", {"Props": '{"%s", "ALL"}' % prop}, "Trace_Patch_part_" + prop)
+    live = [sc for sc in scen if not any(e["ev"] == "Note" and e.get("what") == "skipped" for e in groups.get(sc["id"], []))]
+    tv = tlc.validate_traces("Trace_Patch", cfgp, [(sc["id"], groups.get(sc["id"], [])) for sc in live], WORK, "trace_part_" + prop, timeout=3000)
+    run.traces += len(tv["accepted"])
+    run.states += tv["states"]
+    run.transitions += tv["transitions"]
+    byid = {sc["id"]: sc for sc in scen}
+    for sid in tv["ids"]:
+        run.note_case("prologue %s" % json.dumps({k: byid[sid][k] for k in byid[sid] if k != "id"}, sort_keys=True))
+        if sid not in tv["accepted"]:
+            evs = groups.get(sid, [])
+            reached, total = tv["progress"][sid]
+            sc = byid[sid]
+            run.violation("%s arena prologue=%s flavour=%s page_off=%s" % (prop, sc["prologue"], sc["flavour"], sc["off"]),
+                          {"scenario": sc, "trace_rejected_at": reached, "first_unmatched_event": evs[reached] if reached < len(evs) else None,
+                           "events": [e for e in evs if e["ev"] in ("Place", "Installed", "Called", "Dropped", "ChildExit", "Neighbour", "Write")]})
+    run.extra["prologue_placements"] = {"executed": len(live), "accepted": len(tv["accepted"])}
+
+
 def placement_key(prop, sc, evs):
     off = sc.get("off", 0)
     straddle = off + 5 > 4096
@@ -405,6 +463,9 @@ def placement_check(prop, tier):
         run.add_apalache("Apa_Encoder", "X64Reaches")
     vlib.build_harness()
     scen = placement_scenarios(tier)
+    for sc in prologue_scenarios():
+        sc["id"] = len(scen) + 1
+        scen.append(sc)
     groups, order, _ = vlib.run_harness("placement", scen, "placement_" + prop, timeout=3000)
     cfgp = tlc.make_cfg("Trace_Patch", {"Props": '{"%s", "ALL"}' % prop}, "Trace_Patch_" + prop)
     live = []
@@ -759,6 +820,9 @@ def lock_check(prop, tier):
     hists, gr = gen_behaviours("MC_LifecycleApi_q", timeout=3000)
     hists = hists[::3]
     scen2 = [hist_to_scenario(h, i, "rust", 2, diff=False) for i, h in enumerate(hists, 1)]
+    # one thread using both kinds of guard one after the other: preventer, then the injector lifetime(s), then a preventer
+    for sc in scen2[::2]:
+        sc["lives"] = [{"kind": "prev", "steps": [{"op": "probe"}]}] + sc["lives"] + [{"kind": "prev", "steps": [{"op": "probe"}]}]
     g2, o2, _ = vlib.run_harness("lifecycle", scen2, "lifecycle_C04")
     cfgp = tlc.make_cfg("Trace_Api", {"Props": '{"C04", "ALL"}'}, "Trace_Api_C04")
     tv3 = tlc.validate_traces("Trace_Api", cfgp, [(i, g2.get(i, [])) for i in range(1, len(hists) + 1)], WORK, "trace_C04", timeout=3000)
